@@ -136,6 +136,22 @@ fn gen_accepted(g: &mut Rng, c: &mut Ctx) {
     for h in hashes { if g.below(8) != 0 { prompts.push((h.to_string(), if g.below(2) == 0 { "cursor" } else { "claude" }.to_string(), if g.below(2) == 0 { "m1" } else { "m2" }.to_string())); } }
     chk_accepted(c, g.below(10) == 0, &added, &note, &prompts);
 }
+// lines_to_ranges.  input: L;1,2,5
+fn chk_l2r(c: &mut Ctx, lines: &[u32]) {
+    if !lines.windows(2).all(|w| w[0] < w[1]) { return; }
+    c.evaluated += 1;
+    let input = format!("L;{}", lines.iter().map(|x| x.to_string()).collect::<Vec<_>>().join(","));
+    match guarded(|| lines_to_ranges(lines)) {
+        Ok(r) => {
+            let show = r.iter().map(|p| format!("{}-{}", p.0, p.1)).collect::<Vec<_>>().join(" ");
+            let canon = r.iter().all(|p| p.0 <= p.1) && r.windows(2).all(|w| (w[0].1 as u64) + 1 < w[1].0 as u64);
+            if !canon { c.fail("lines_to_ranges", "ensures#0", input.clone(), show.clone(), "forward, sorted, separated ranges".into()); }
+            let mut pts: Vec<u64> = vec![]; for &l in lines { for d in [0u64, 1, 2] { pts.push((l as u64 + d).saturating_sub(1)); } } for p in &r { for d in [0u64, 1, 2] { pts.push((p.0 as u64 + d).saturating_sub(1)); pts.push((p.1 as u64 + d).saturating_sub(1)); } }
+            for x in pts { let inr = r.iter().any(|p| p.0 as u64 <= x && x <= p.1 as u64); let inl = lines.iter().any(|&l| l as u64 == x); if inr != inl { c.fail("lines_to_ranges", "ensures#1", input.clone(), format!("{} (line {} {})", show, x, if inl { "lost" } else { "invented" }), "exactly the input lines".into()); break; } }
+        }
+        Err(p) => c.fail("lines_to_ranges", "safety", input, p, "no panic".into()),
+    }
+}
 // numstat totals.  input: N;suffix,suffix;line|line|..   (a tab is written \t)
 fn chk_numstat(c: &mut Ctx, suffixes: &[String], lines: &[String]) {
     c.evaluated += 1;
@@ -185,6 +201,8 @@ fn main() {
             let added: Vec<u32> = (0..8).filter(|i| mask >> i & 1 == 1).map(|i| vals[i]).collect();
             for &x in &[0u32, 1, 2, 4, 5, 9, 10, u32::MAX] { chk_overlap(&mut c, (x, None), &added); for &y in &[0u32, 1, 3, 5, 9, u32::MAX] { chk_overlap(&mut c, (x, Some(y)), &added); } }
         }
+        let lv: [u32; 11] = [1, 2, 3, 5, 6, 8, 9, 10, u32::MAX - 2, u32::MAX - 1, u32::MAX];
+        for mask in 0u32..(1 << 11) { let v: Vec<u32> = (0..11).filter(|i| mask >> i & 1 == 1).map(|i| lv[i]).collect(); chk_l2r(&mut c, &v); }
         let mut g = Rng(a[3].parse::<u64>().unwrap_or(0).wrapping_mul(0x9E3779B97F4A7C15) ^ 0x2545F4914F6CDD1D);
         for round in 0..20000u32 {
             let np = g.below(3) as usize;
@@ -210,6 +228,7 @@ fn main() {
             println!("DONE evaluated={}", c.evaluated);
             return;
         }
+        if p[0] == "L" { let v: Vec<u32> = p.get(1).unwrap_or(&"").split(',').filter(|x| !x.is_empty()).map(|x| x.parse().unwrap()).collect(); chk_l2r(&mut c, &v); println!("DONE evaluated={}", c.evaluated); return; }
         if p[0] == "N" {
             let suffixes: Vec<String> = p[1].split(',').filter(|x| !x.is_empty()).map(|x| x.to_string()).collect();
             let rest = a[3].splitn(3, ';').nth(2).unwrap_or("");
